@@ -10,3 +10,5 @@ import DiplomatModel.Props.C08
 #print axioms DiplomatModel.Props.C08.option_flag_offset
 #print axioms DiplomatModel.Props.C08.force_padding_iff
 #print axioms DiplomatModel.Props.C08.write_read_roundtrip
+#print axioms DiplomatModel.Props.C08.typed_padding_fills_gaps
+#print axioms DiplomatModel.Props.C08.arg_slots_tile
